@@ -1,4 +1,5 @@
 import MdsVerif.Proofs.Slice
+import MdsVerif.Proofs.Partition
 /-!
 # C17 — the slice utilities rearrange and partition exactly as documented
 
@@ -13,8 +14,55 @@ and `Partition(vs, keep)` for `len(vs) = 0` both return `vs` itself — and the
 theorems say so explicitly.
 -/
 namespace MdsVerif.Props.C17
-open MdsVerif.Model.Slice MdsVerif.Proofs.Slice
+open MdsVerif.Model.Slice MdsVerif.Proofs.Slice MdsVerif.Proofs.Partition
 variable {α : Type}
+
+/-! ## Partition -/
+
+/-- **Partition(vs, keep)**, for every slice (empty, with offset, with spare capacity) and every
+predicate: the call returns (no panic, the two-cursor loop terminates); the result `r` is a prefix
+of `vs` (`r.off = vs.off`) holding exactly the elements satisfying `keep`, in their original order;
+its capacity is clipped to its length — except that for an empty `vs` the code returns `vs` itself,
+whose spare capacity is not clipped (then `r` still ends where `vs` ends); the whole slice is a
+permutation of its original contents; nothing outside `vs` is written. -/
+theorem partition_spec [Inhabited α] (keep : α → Bool) (mem : List α) (h : Hdr) (hw : h.WF mem.length) :
+    ∃ mem' r, partition keep mem h = .ok (mem', r) ∧
+      r.off = h.off ∧
+      window mem' r = (window mem h).filter keep ∧
+      r.len = ((window mem h).filter keep).length ∧
+      (r.cap = r.len ∨ (h.len = 0 ∧ r = h)) ∧
+      (window mem' h).Perm (window mem h) ∧
+      mem'.length = mem.length ∧
+      mem'.take h.off = mem.take h.off ∧
+      mem'.drop (h.off + h.len) = mem.drop (h.off + h.len) := by
+  have hwl := window_length mem h hw
+  by_cases h0 : h.len = 0
+  · have hnil : window mem h = [] := List.eq_nil_of_length_eq_zero (by omega)
+    refine ⟨mem, h, by simp [partition, h0], rfl, by simp [hnil], by simp [hnil, h0],
+      Or.inr ⟨h0, rfl⟩, List.Perm.refl _, rfl, rfl, rfl⟩
+  · obtain ⟨w, h1, h2, h3⟩ := partitionW_spec keep (window mem h)
+    have hlw : w.length = h.len := by rw [h3.length_eq, hwl]
+    have hfl : ((window mem h).filter keep).length ≤ h.len := by
+      rw [← hwl]; exact List.length_filter_le _ _
+    have hlc := hw.1
+    refine ⟨store mem h w, ⟨h.off + 0, ((window mem h).filter keep).length - 0,
+        ((window mem h).filter keep).length - 0⟩, ?_, rfl, ?_, rfl, Or.inl rfl, ?_,
+      store_length mem h hw w hlw, store_take mem h hw w, store_drop mem h hw w hlw⟩
+    · simp only [partition, if_neg h0, h1]
+      have := slice3_nat h 0 ((window mem h).filter keep).length ((window mem h).filter keep).length
+        (by omega) (Nat.le_refl _) (by omega)
+      simp only [Int.natCast_zero] at this
+      rw [this]; rfl
+    · simp only [Nat.add_zero, Nat.sub_zero]
+      rw [window_prefix (store mem h w) h _ _ hfl, window_store mem h hw w hlw, h2]
+    · rw [window_store mem h hw w hlw]; exact h3
+
+/-- non-vacuity: the example of the documentation, laid out at offset 1 with spare capacity -/
+example : partition (fun v : Int => v % 2 == 0) [900, 6, 1, 3, 2, 8, 4, 5, 901, 902] ⟨1, 7, 8⟩
+    = .ok ([900, 6, 2, 8, 4, 3, 1, 5, 901, 902], ⟨1, 4, 4⟩) := by decide
+/-- the empty slice keeps its spare capacity -/
+example : partition (fun v : Int => v % 2 == 0) [900, 901, 902] ⟨1, 0, 2⟩ = .ok ([900, 901, 902], ⟨1, 0, 2⟩) := by
+  decide
 
 /-! ## Chunks -/
 
